@@ -76,7 +76,14 @@ type contentRec struct {
 	seq     *SeqV
 }
 
+// ghostRec: symbolic value of a ghost sequence field of one object, valid while the heap component is unchanged.
+type ghostRec struct {
+	heapTerm string
+	seq      *SeqV
+}
+
 type State struct {
+	gcontent map[string]*ghostRec // heap key of the ghost array component + "|" + object reference
 	content map[string]*contentRec // symbolic contents of byte slices built by append / returned by contracts
 	heap   map[string]Term
 	base   map[string]Term // lazily created defaults (shared by clones); replaced on havoc-all
@@ -91,6 +98,12 @@ func (s *State) Clone() *State {
 	}
 	for k, v := range s.locals {
 		n.locals[k] = v
+	}
+	if len(s.gcontent) > 0 {
+		n.gcontent = make(map[string]*ghostRec, len(s.gcontent))
+		for k, v := range s.gcontent {
+			n.gcontent[k] = v
+		}
 	}
 	if len(s.content) > 0 {
 		n.content = make(map[string]*contentRec, len(s.content))
@@ -123,6 +136,7 @@ type Engine struct {
 	funcIDs    map[*ssa.Function]int
 	funcByID   map[int]*ssa.Function
 	ghostFields map[string][]GhostField // "pkgpath.Type" -> ghost fields
+	knownFailing map[string]bool       // obligation names listed as known findings: never assumed at call sites
 }
 
 func typeKey(t types.Type) string { return types.TypeString(types.Unalias(t), nil) }
@@ -747,6 +761,11 @@ func (x *Exec) skipStores(cur string, older int, depth int) string {
 		if d, ok := x.ctx.defs[cur]; ok {
 			def = d
 		}
+		if fm, ok := x.ctx.frameMem[cur]; ok && older < fm.stamp {
+			// memory after a call with a frame: objects that existed before the call are unchanged
+			cur = fm.old
+			continue
+		}
 		if a := splitApp(def, "store"); len(a) == 3 {
 			b, ok := x.minBirth(a[1], 0)
 			if !ok || older >= b {
@@ -860,10 +879,25 @@ func (x *Exec) Load(st *State, p *Ptr) *Value {
 		}
 		for j := 0; j < n; j++ {
 			key, _ := e.heapKey("H", p.RootT, off+j)
-			out.C[j] = selN(Select(x.heapGet(st, key), p.Heap), idx)
+			out.C[j] = selN(x.selectObj(x.heapGet(st, key), p.Heap), idx)
 		}
 	}
 	return out
+}
+
+// selectObj reads the object at ref in a heap component, looking through stores to objects that were
+// born after every symbol of ref existed (they cannot be the same object).
+func (x *Exec) selectObj(h Term, ref Term) Term {
+	base := x.skipStores(h.S, maxIndex(ref.S), 0)
+	def := base
+	if d, ok := x.ctx.defs[base]; ok {
+		def = d
+	}
+	if a := splitApp(def, "store"); len(a) == 3 && a[1] == ref.S && !strings.ContainsAny(a[2], " ") {
+		// the object was just written with an atomic value: read it back
+		return Term{S: a[2], Sort: ElemSort(h.Sort)}
+	}
+	return Select(Term{S: base, Sort: h.Sort}, ref)
 }
 
 // normPtr rewrites a pointer into a heap array object (*[N]T with an index
